@@ -16,10 +16,12 @@ core.ENV.setdefault("VERIF_PANIC_MEM_MB", "4096")
 
 REFINED = ["entry guards mirrored from the code and proved equivalent to the documentation: UBig::sub, div/rem/div_rem/"
            "div_euclid/rem_euclid/div_rem_euclid/is_multiple_of by zero (UBig, IBig), gcd/gcd_ext(0,0), UBig/IBig::nth_root, "
-           "IBig::sqrt, UBig/IBig::ilog, in_radix, ConstDivisor::new, float assert_finite_operands / assert_limited_precision "
-           "as used by add/sub/div/sqrt/ulp, RBig/Relaxed::from_parts, nearest/next_up/next_down(limit = 0)",
+           "IBig::sqrt, UBig/IBig::ilog, in_radix, ConstDivisor::new, is_multiple_of_const, float assert_finite_operands / "
+           "assert_limited_precision as used by add/sub/div/sqrt/ulp, float div_euclid/rem_euclid, powf, split_at_point, "
+           "ln and ln_1p (domain guard of fix b0e87a3), RBig/Relaxed::from_parts, nearest/next_up/next_down(limit = 0)",
            "RBig::farey_neighbors loop (fuel model): terminates within `limit` iterations; needs exactly `limit` for x = 1/(limit+1)",
-           "float ln series loop (fuel model over Rat): terminates for 0 <= z <= 1/3 (x > 0 after scaling); never for z >= 2 (x < 0)",
+           "float ln series loop (fuel model over Rat): terminates for 0 <= z <= 1/3 (x > 0 after scaling, the only input that "
+           "reaches it since the ln guard); as-is counterexample for the pre-fix code: never terminates for z >= 2 (x < 0)",
            "float parser marker search: byte offsets returned for ASCII markers are UTF-8 boundaries"]
 FRONTIER = ["every operation NOT in the refined list is decided by the correspondence only: the documentation (Spec/Panics.lean) "
             "against the real call, on the domain edges listed in RULE",
@@ -44,16 +46,17 @@ RULE = ("One case = one public API call at a domain edge; both sides print only 
         "distinct (op,args) lines.")
 EXPLANATION = ("The model of this property is the documentation: Spec/Panics.lean transcribes the rustdoc `# Panics` sections, the "
                "trait/type level docs and the central panic helpers into a decidable `verdict : Op -> Args -> returns | panics k | "
-               "unspecified` (146 operations). Proved: every kind it returns is a documented one; for 36 operations the entry guards "
+               "unspecified` (146 operations). Proved: every kind it returns is a documented one; for 45 operations the entry guards "
                "mirrored from the code fail with kind k iff the documentation names k; the Farey walk terminates within `limit` steps and "
-               "needs `limit` steps on 1/(limit+1) (the linear-time finding, made precise); the ln series loop terminates for positive "
-               "input and provably never for negative input (the missing-guard finding). Everything else is decided by running the real "
+               "needs `limit` steps on 1/(limit+1) (the linear-time finding, made precise); ln/ln_1p now guard their domain (proved "
+               "equivalent to the documentation) so the series loop is entered only where it provably terminates; for the pre-fix "
+               "code the loop provably never terminates on negative input (kept as as-is counterexample). Everything else is decided by running the real "
                "call (debug build; thorough: also release) under a watchdog with an address-space cap against the transcription.")
 ASSUMPTIONS = ["Spec/Panics.lean is a faithful transcription of the rustdoc (it is the thing to review)",
                "the harness address-space cap (4 GiB) turns allocation failure into the documented `out of memory` panic",
                "per-case wall limit 4 s distinguishes termination from non-termination for the generated sizes"]
 LEVEL_TEXT = ("PARTIAL. Lean 4 theorems: the transcription of the documentation is total and only names documented kinds; the entry "
-              "guards of 36 representative operations (mirrored from the code) are equivalent to it; two loops whose termination is the "
+              "guards of 45 representative operations (mirrored from the code) are equivalent to it; two loops whose termination is the "
               "question are modelled with fuel and their (non-)termination is proved. The rest of the public API (146 ops in total) is "
               "decided by correspondence only: each call runs in a supervised worker (panic capture, 4 s wall limit, address-space cap) in "
               "the debug build and, in the thorough tier, the release build, and its outcome class is compared with the transcription.")
@@ -65,7 +68,9 @@ THEOREMS = ["Dashu.Props.C16." + t for t in (
     "documented_is_total documented_never_undocumented kind_names_agree kind_names_distinct ubig_sub_guard "
     "ubig_div_family_guard ibig_div_family_guard ubig_gcd_guard ibig_gcd_guard ubig_nth_root_guard ibig_nth_root_guard "
     "ibig_sqrt_guard ubig_ilog_guard ibig_ilog_guard in_radix_guard const_divisor_new_guard rbig_from_parts_guard "
-    "rbig_limit_guard fbig_add_sub_guard fbig_div_guard fbig_sqrt_guard fbig_ulp_guard farey_terminates "
+    "rbig_limit_guard fbig_add_sub_guard fbig_div_guard fbig_sqrt_guard fbig_ulp_guard ubig_is_multiple_of_const_guard "
+    "ibig_is_multiple_of_const_guard fbig_split_at_point_guard fbig_euclid_guard fbig_powf_guard fbig_ln_guard "
+    "fbig_ln_1p_guard farey_terminates "
     "farey_needs_limit_steps ln_positive_terminates ln_negative_never_terminates ascii_cuts_safe "
     "float_parser_cuts_safe").split()]
 
@@ -123,6 +128,42 @@ def ieee64(v):
     return struct.unpack("<Q", struct.pack("<d", v))[0]
 
 
+def _alloc(bits):
+    if (bits + 63) // 64 > (2 ** 64 - 1) // 64:
+        return "AllocTooMuch"
+    if bits >= 2 ** 38:
+        return "OutOfMemory"
+    return "ok" if bits <= 2 ** 30 else None
+
+
+def _alloc_range(lo, hi):
+    return _alloc(lo) if _alloc(lo) == _alloc(hi) else None
+
+
+def pow_verdict(mag, e):
+    """mirror of Spec/Panics.lean powVerdict (None = unspecified); used only to keep the generator out of the grey zones"""
+    if mag <= 1 or e <= 1:
+        return "ok"
+    s = (mag & -mag).bit_length() - 1
+    odd = mag >> s
+    L = odd.bit_length()
+    if odd == 1:
+        return _alloc(s * e + 1)
+    v = _alloc_range((L - 1) * e + 1, L * e)
+    if v == "ok":
+        return _alloc_range((L - 1) * e + 1 + s * e, L * e + s * e)
+    return v
+
+
+def pow_ok_to_generate(mag, e):
+    v = pow_verdict(mag, e)
+    if v is None:
+        return False
+    if v == "ok" and mag > 1 and e > 1 and mag.bit_length() * e > 2 ** 22:
+        return False         # would return, but too slow for the per-case limit
+    return True
+
+
 def int_cases(rng, tier):
     th = tier == "thorough"
     strs = list(INT_STRINGS)
@@ -157,14 +198,8 @@ def int_cases(rng, tier):
     for x in (0, 1, 2, 3, 10, 16, 1 << 32, (1 << 64) - 1, 1 << 64, (1 << 64) + 1, 3 << 64, (1 << 200) + 1, 1 << 200):
         L = x.bit_length()
         for e in (0, 1, 2, 3, 5, 64, 1000, 2 ** 20, 2 ** 38, 2 ** 40, 2 ** 57, 2 ** 58, 2 ** 62, 2 ** 63, M - 1, M):
-            if x > 1 and e > 1:
-                lo, hi = (L - 1) * e + 1, L * e
-                if x & (x - 1) == 0:
-                    hi = lo
-                if hi > 2 ** 22 and lo < 2 ** 38:
-                    continue        # slow or inside the grey zone of the allocation rule
-                if lo <= 2 ** 64 - 64 < hi:
-                    continue        # straddles the usize limit
+            if not pow_ok_to_generate(x, e):
+                continue
             yield Case("u.pow", [hx(x), D(e)]); yield Case("i.pow", [hx(-x), D(e)])
     for x in (0, 1, 4, 8, 27, (1 << 200) + 5, -1, -4, -8, -27, -((1 << 200) + 5)):
         if x >= 0:
@@ -271,6 +306,9 @@ def float_cases(rng, tier):
                     if op in ("exp", "exp_m1") and a in ("huge", "mhuge"):
                         continue      # |x| ~ 2^401: handled below with explicit magnitudes
                     yield Case("f." + op, [V[a]])
+            for a in ("inf", "zero", "one", "mone", "three", "mthree", "nsmall"):
+                for b in ("one", "zero", "three", "mone", "half"):
+                    yield Case("f.powf", [V[a], V[b]])
             for a in ("inf", "zero", "one", "mone", "three", "mthree", "half", "nsmall"):
                 for e in (0, 1, -1, 2, -2, 3, -3, 100, -100, 1000):
                     yield Case("f.powi", [V[a], hx(e)])
@@ -349,9 +387,9 @@ def ratio_cases(rng, tier):
                 yield Case("q." + op, [hx(n), hx(d), K])
             L = max(abs(n), d).bit_length()
             for e in (0, 1, 2, 3, 100, 2 ** 38, 2 ** 57, 2 ** 62, M):
-                if max(abs(n), d) > 1 and e > 1 and L * e > 2 ** 22 and (L - 1) * e + 1 < 2 ** 38:
-                    continue
-                if max(abs(n), d) > 1 and e > 1 and (L - 1) * e + 1 <= 2 ** 64 - 64 < L * e:
+                import math
+                g = d if n == 0 else (math.gcd(abs(n), d) if K == "k:R" else 2 ** min((abs(n) & -abs(n)).bit_length() - 1, (d & -d).bit_length() - 1))
+                if not pow_ok_to_generate(abs(n) // g, e) or (pow_verdict(abs(n) // g, e) == "ok" and not pow_ok_to_generate(d // g, e)):
                     continue
                 yield Case("q.pow", [hx(n), hx(d), K, D(e)])
             for p in (0, 1, 5, 100):
@@ -478,12 +516,6 @@ def _str(a):
 
 
 @_kf
-def ln_nonpositive(args, impl, model):
-    # ln(x), x <= 0 / ln_1p(x), x <= -1, finite, limited precision: exactly the inputs the documentation maps to LogInvalid
-    return model == "panic LogInvalid" and (impl in ("hang", "ok", "panic OutOfMemory") or "float/src/log.rs" in impl)
-
-
-@_kf
 def float_exponent_unchecked(args, impl, model):
     # the exact result exponent lies outside isize (documentation: panics); debug: arithmetic-overflow panic, release: wraps
     return model == "panic ExponentOverflow" and (impl == "ok" or "with_overflow" in impl)
@@ -524,27 +556,6 @@ def exp_m1_negative_huge(args, impl, model):
 
 
 @_kf
-def euclid_infinite(args, impl, model):
-    a, b = _F(args[0]), _F(args[1])
-    inf = lambda f: f["signif"] == 0 and f["exp"] != 0
-    return model == "panic Infinite" and (inf(a) or inf(b)) and impl in ("ok", "panic DivideByZero")
-
-
-@_kf
-def powf_infinite_exponent(args, impl, model):
-    # finite base, infinite exponent: the exponent is never checked, the outcome is whatever the later checks give
-    a, b = _F(args[0]), _F(args[1])
-    return model == "panic Infinite" and not (a["signif"] == 0 and a["exp"] != 0) and b["signif"] == 0 and b["exp"] != 0 and \
-        impl in ("ok", "panic UnlimitedPrecision", "panic PowNegativeBase")
-
-
-@_kf
-def split_at_point_infinite(args, impl, model):
-    a = _F(args[0])
-    return model == "panic Infinite" and a["signif"] == 0 and a["exp"] != 0 and (impl == "ok" or "repr.rs" in impl)
-
-
-@_kf
 def decimal_to_ieee_debug_assert(args, impl, model):
     return model == "ok" and _F(args[0])["base"] == 10 and "self.significand.bit_len()_<=" in impl
 
@@ -561,39 +572,14 @@ def with_precision_infinite_shrink(args, impl, model):
     return model == "ok" and impl == "panic Infinite" and a["signif"] == 0 and a["exp"] != 0 and a["prec"] > p
 
 
-@_kf
-def is_multiple_of_const_zero(args, impl, model):
-    return _I(args[1]) == 0 and model == "panic DivideByZero" and impl.startswith("panic Undocumented")
-
-
 def _maxcap_words(bits):
     return (bits + 63) // 64 > (2 ** 64 - 1) // 64
-
-
-@_kf
-def alloc_too_much_unreachable(args, impl, model):
-    # the result needs more than Buffer::MAX_CAPACITY words (documentation: AllocTooMuch)
-    return model == "panic AllocTooMuch" and (impl == "panic OutOfMemory" or "buffer.rs:58" in impl)
-
-
-@_kf
-def pow_size_arithmetic(args, impl, model):
-    # pow of a 1- or 2-word base: the size estimates `exp + 1` / `2 * exp` overflow usize or exceed MAX_CAPACITY
-    return model in ("panic AllocTooMuch", "panic OutOfMemory") and \
-        (("integer/src/pow.rs" in impl and "with_overflow" in impl) or
-         (model == "panic OutOfMemory" and ("buffer.rs:58" in impl or impl == "panic AllocTooMuch")
-          and 2 ** 64 <= max(abs(_I(args[0])), abs(_I(args[1])) if not args[1][1:2] == ":" else 0) < 2 ** 128))
 
 
 @_kf
 def pow_large_base_no_precheck(args, impl, model):
     base = max(abs(_I(args[0])), abs(_I(args[1])) if not args[1].startswith("d:") and not args[1].startswith("k:") else 0)
     return impl == "hang" and model in ("panic AllocTooMuch", "panic OutOfMemory") and base >= 2 ** 128
-
-
-@_kf
-def set_bit_realloc_unwrap(args, impl, model):
-    return model in ("panic OutOfMemory", "panic AllocTooMuch") and "buffer.rs:155" in impl
 
 
 @_kf
@@ -631,6 +617,18 @@ def farey_integer_limit_one(args, impl, model):
 @_kf
 def to_float_zero_precision(args, impl, model):
     return _I(args[3]) == 0 and model == "panic UnlimitedPrecision" and "precision_>_0" in impl
+
+
+@_kf
+def realloc_too_much_unreachable(args, impl, model):
+    # growth of an existing heap buffer beyond MAX_CAPACITY words
+    return model == "panic AllocTooMuch" and _I(args[0]) >= 2 ** 128 and (impl == "panic OutOfMemory" or "buffer.rs:58" in impl)
+
+
+@_kf
+def pow_dword_estimate(args, impl, model):
+    # 2-word base: 2*exp words exceed MAX_CAPACITY although the result itself does not
+    return model == "panic OutOfMemory" and impl == "panic AllocTooMuch" and 2 ** 64 <= abs(_I(args[0])) < 2 ** 128 and 2 * _I(args[1]) > (2 ** 64 - 1) // 64
 
 
 READY = True
